@@ -489,10 +489,12 @@ func Log(level LogLevel, ctx *Context, args ...interface{}) {
 	more = append(more, LogKeyOp)
 	more = append(more, args...)
 	if ctx != nil {
+		ctx.RLock()
 		for p, v := range ctx.logProps {
 			more = append(more, p)
 			more = append(more, v)
 		}
+		ctx.RUnlock()
 	}
 	args = more
 
